@@ -153,6 +153,37 @@ def make_cases(chk, rng):
                 cases.append({"name": f"csc{k}", "lines": [f"csc.transpose {r} {c} {ent}", f"csc.scale {r} {c} {ent} {dl} {dr}"],
                               "meta": {"kind": "csc-storage", "n": r}})
                 k += 1
+    # is_transpose_pattern (the guard of sparse update): every pair of patterns (A r x c, C c x r) for r*c <= 4, all 2x3 / 3x2 pairs
+    # in the thorough tier, random pairs with near-miss mutations otherwise (same nnz, one entry moved; wrong dimensions)
+    def pat(bits, r, c):
+        return " ".join(("1" if bits[a * c + b] else ".") for a in range(r) for b in range(c))
+    k = 0
+    shapes = [(1, 1), (1, 2), (2, 1), (2, 2), (1, 3), (3, 1), (1, 4), (4, 1)] + ([(2, 3), (3, 2)] if thorough else [])
+    for (r, c) in shapes:
+        L = []
+        for ba in itertools.product([False, True], repeat=r * c):
+            for bc in itertools.product([False, True], repeat=r * c):
+                L.append(f"csc.istp {r} {c} {pat(ba, r, c)} {c} {r} {pat(bc, c, r)}")
+        for q in range(0, len(L), 256):
+            cases.append({"name": f"istp{k}", "lines": L[q:q + 256], "meta": {"kind": "csc-istp", "n": r}})
+            k += 1
+    L = []
+    for _ in range(2000 if thorough else 300):
+        r, c = rng.randint(1, 5), rng.randint(1, 5)
+        ba = [rng.random() < 0.5 for _ in range(r * c)]
+        bt = [ba[(t % r) * c + (t // r)] for t in range(c * r)]     # exact transpose pattern, row-major c x r
+        mode = rng.randrange(4)
+        r2, c2 = c, r
+        if mode == 1 and any(bt) and not all(bt):                   # move one entry: same nnz, different pattern
+            on = [t for t in range(c * r) if bt[t]]; off = [t for t in range(c * r) if not bt[t]]
+            bt[rng.choice(on)] = False; bt[rng.choice(off)] = True
+        elif mode == 2:                                             # wrong dimensions
+            r2, c2 = r, c
+            bt = [rng.random() < 0.5 for _ in range(r2 * c2)]
+        elif mode == 3:                                             # random
+            bt = [rng.random() < 0.5 for _ in range(c * r)]
+        L.append(f"csc.istp {r} {c} {pat(ba, r, c)} {r2} {c2} {pat(bt, r2, c2)}")
+    cases.append({"name": "istp_rand", "lines": L, "meta": {"kind": "csc-istp", "n": 5}})
     return cases
 
 
@@ -221,7 +252,8 @@ def run(replay=None):
                        "LDLTNoPivot Lower/Upper at sizes across the blocking threshold (31,32,33; thorough also 64..257); transpose, diagonal "
                        "scaling, AMD consistency on random rectangular patterns incl. empty rows/columns; storage level (the three CSC arrays, "
                        "not the dense view) for transpose_no_allocation / pre_mult_diagonal / post_mult_diagonal against the loop-level "
-                       "Csc model: every pattern of every shape up to 3x3 and the random rectangular ones")
+                       "Csc model: every pattern of every shape up to 3x3 and the random rectangular ones; is_transpose_pattern against its loop-level model "
+                       "(binary search included) on every pair of patterns with at most 4 cells (thorough: 2x3 too) and random near-miss pairs up to 5x5")
     for c in cases[:2]:
         chk.sample({"case": c["name"], "line": c["lines"][0][:200]})
     if proof_ok is False and not chk.violations:
